@@ -111,3 +111,164 @@ PLAN["C17"] = {
 }
 LEVEL_TEXT["C17"] = ("all interleavings with <= c preemptions of all enumerated multi-generation thread programs (threads created, exiting and being replaced) for 13 "
                      "reclaimer configurations; bookkeeping footprint bound, conservation census and guard safety checked after every generation")
+
+# ------------------------------------------------------------------------------------------------- C05
+TITLES["C05"] = "vyukov_bounded and nikolaev_bounded queues are linearizable bounded FIFOs"
+PLAN["C05"] = {
+    "quick": [run("bounded", "vyukov", c=2, opt={"cap": 2}), run("bounded", "vyukov", c=1, opt={"cap": 4, "wrap": 5}),
+              run("bounded", "nikolaev", c=2, opt={"cap": 1}), run("bounded", "nikolaev", c=2, opt={"cap": 2}),
+              run("bounded", "nikolaev", c=2, opt={"cap": 3, "wrap": 9})],
+    "thorough": [run("bounded", "vyukov", c=3, opt={"cap": 2}, weight=6), run("bounded", "vyukov", c=2, opt={"cap": 4, "wrap": 9}),
+                 run("bounded", "vyukov", c=2, opt={"cap": 2, "T": 3, "m": 1, "prefill": 1}),
+                 run("bounded", "vyukov", c=1, opt={"cap": 2, "T": 2, "m": 3, "prefill": 1}, weight=3),
+                 run("bounded", "nikolaev", c=3, opt={"cap": 1}, weight=3), run("bounded", "nikolaev", c=3, opt={"cap": 2}, weight=6),
+                 run("bounded", "nikolaev", c=2, opt={"cap": 3, "wrap": 9}), run("bounded", "nikolaev", c=2, opt={"cap": 4, "wrap": 17}),
+                 run("bounded", "nikolaev", c=2, opt={"cap": 2, "T": 3, "m": 1}), run("bounded", "nikolaev", c=2, opt={"cap": 2, "T": 2, "m": 3}, weight=4),
+                 run("bounded", "vyukov", c=2, opt={"cap": 2}, mode="wmm", d=1, weight=4), run("bounded", "nikolaev", c=2, opt={"cap": 2}, mode="wmm", d=1, weight=4)],
+    "budget_s": {"quick": 120, "thorough": 1500},
+    "rule": "programs: T threads x m operations over {try_push_strong, try_pop_strong, try_push_weak, try_pop_weak} (vyukov) / {try_push, try_pop} (nikolaev), all "
+            "assignments, prefill 0..capacity (enumerated), optional wrap-around prefix (push/pop pairs advancing the ring indexes), final drain; oracle: Wing-Gong "
+            "linearizability against a bounded FIFO in which weak operations may fail spuriously but never succeed wrongly and (nikolaev) a push may fail when "
+            "size + #overlapping operations >= capacity; capacity() must be the next power of two",
+    "assumptions": [],
+}
+LEVEL_TEXT["C05"] = ("all interleavings with <= c preemptions (2 quick, up to 3 thorough) of all enumerated 2-3 thread programs mixing strong and weak operations on rings of "
+                     "capacity 1..4 after up to several wrap-arounds; every history is checked for linearizability against a bounded FIFO with exactly the slack the property grants")
+
+# ------------------------------------------------------------------------------------------------- C06
+TITLES["C06"] = "Kirsch k-FIFO queues conserve elements with at most k-1 overtaking"
+_c06_quick = [
+    run("kfifo", "kb", c=2, r=1, opt={"k": 2, "segs": 2}, weight=3), run("kfifo", "kb", c=2, opt={"k": 1, "segs": 1}), run("kfifo", "kb", c=2, opt={"k": 1, "segs": 2}),
+    run("kfifo", "kb", c=1, r=1, opt={"k": 2, "segs": 3}), run("kfifo", "kb", c=1, r=1, opt={"k": 3, "segs": 1}),
+    run("kfifo", "kb", c=0, r=2, opt={"T": 1, "m": 6, "k": 2, "segs": 2, "prefill": 0}), run("kfifo", "kb", c=0, r=2, opt={"T": 1, "m": 6, "k": 2, "segs": 3, "prefill": 0}),
+    run("kfifo", "kf_hp", c=1, r=1, opt={"k": 2}), run("kfifo", "kf_ebr", c=1, r=1, opt={"k": 2}), run("kfifo", "kf_stamp", c=1, r=0, opt={"k": 2}),
+    run("kfifo", "kf_hp", c=2, opt={"k": 1}), run("kfifo", "kf_hp", c=0, r=2, opt={"T": 1, "m": 6, "k": 2, "prefill": 0}),
+    run("kfifo", "kb_boundary", c=0, horizon=8000000, wall=120, opt={"segs": 65535, "fill": 65535, "ops": 70000}),
+    run("kfifo", "kb_boundary", c=0, horizon=8000000, wall=120, opt={"segs": 65536, "fill": 65536, "ops": 70000}),
+    run("kfifo", "kb_boundary", c=0, horizon=8000000, wall=120, opt={"segs": 65537, "fill": 65537, "ops": 70000}),
+    run("kfifo", "kb_boundary", c=0, horizon=8000000, wall=120, opt={"segs": 70000, "fill": 3, "ops": 150000}),
+]
+_c06_thorough = [
+    run("kfifo", "kb", c=3, r=1, opt={"k": 2, "segs": 2, "prefill": 1}, weight=8), run("kfifo", "kb", c=2, r=2, opt={"k": 2, "segs": 2}, weight=3),
+    run("kfifo", "kb", c=3, opt={"k": 1, "segs": 1}, weight=2), run("kfifo", "kb", c=3, opt={"k": 1, "segs": 2}, weight=2),
+    run("kfifo", "kb", c=2, r=1, opt={"k": 2, "segs": 3}), run("kfifo", "kb", c=2, r=1, opt={"k": 3, "segs": 2}),
+    run("kfifo", "kb", c=2, r=1, opt={"k": 2, "segs": 2, "T": 3, "m": 1}), run("kfifo", "kb", c=0, r=3, opt={"T": 1, "m": 8, "k": 2, "segs": 2, "prefill": 0}),
+    run("kfifo", "kb", c=0, r=2, opt={"T": 1, "m": 8, "k": 3, "segs": 2, "prefill": 0}),
+    run("kfifo", "kb_boundary", c=0, horizon=8000000, wall=120, opt={"segs": 65537, "fill": 65537, "ops": 70000}),
+    run("kfifo", "kb_boundary", c=0, horizon=8000000, wall=120, opt={"k": 2, "segs": 32769, "fill": 65538, "ops": 70000}),
+    run("kfifo", "kb_boundary", c=0, horizon=16000000, wall=240, opt={"segs": 131073, "fill": 131073, "ops": 140000}),
+] + [run("kfifo", "kf_" + r, c=2, r=1, opt={"k": 2}, weight=6) for r in ["hp", "hpd", "he", "qsbr", "ebr", "nebr", "debra"]] + [
+    run("kfifo", "kf_stamp", c=1, r=1, opt={"k": 2}, weight=2), run("kfifo", "kf_hp", c=3, opt={"k": 1, "prefill": 0}, weight=6),
+    run("kfifo", "kf_hp", c=0, r=3, opt={"T": 1, "m": 8, "k": 2, "prefill": 0}),
+]
+PLAN["C06"] = {
+    "quick": _c06_quick, "thorough": _c06_thorough, "budget_s": {"quick": 150, "thorough": 1500},
+    "rule": "programs: T threads x m operations over {push/try_push, try_pop}, all assignments, prefill 0..2, final drain; k in 1..3, segments 1..3; utils::random() "
+            "(hook XENIUM_VERIF) is a recorded choice over [0,k): default 0, r deviations enumerated; sequential runs: all operation sequences of depth 6..8; boundary "
+            "runs: one thread fills and cycles rings of k*segments = 2^16-1, 2^16, 2^16+1, 70000, 2^17+1 slots; oracle: Wing-Gong linearizability against the k-relaxed "
+            "FIFO exactly as C06 words it (pop returns one of the k oldest; 'empty' only with < k stored and an overlapping operation, or truly empty; bounded push "
+            "rejected only with >= (segments-1)*k+1 stored) + progress monitor",
+    "assumptions": ["values are small distinct integers encoded in never dereferenced pointers"],
+}
+LEVEL_TEXT["C06"] = ("all interleavings with <= c preemptions and <= r non-default random start indexes of all enumerated 2-3 thread programs, all sequential operation "
+                     "sequences up to depth 6-8, and complete sequential laps around rings below, at and above 2^16 slots; each history checked against the k-relaxed FIFO")
+
+# ------------------------------------------------------------------------------------------------- C07
+TITLES["C07"] = "Queues own their elements: each value is moved out or destroyed exactly once"
+_own_tests = ["ms_up_hp", "ms_up_ebr", "ms_up_lfrc", "ms_val_hp", "ms_raw_hp", "ram_e1_up_hp", "ram_e2_up_hp", "ram_e2_up_ebr", "ram_e2_up_lfrc", "ram_e2_raw_hp",
+              "nik_e1_up_hp", "nik_e2_up_ebr", "nik_e2_val_hp", "nik_e1_val_lfrc", "kf_k1_up_hp", "kf_k2_up_hp", "kf_k2_up_ebr", "kf_k2_raw_hp",
+              "kb_k1s2_up", "kb_k2s2_up", "kb_k1s1_up", "kb_k2s2_raw", "nb_c1_up", "nb_c2_up", "nb_c2_val", "vb_s2_up", "vb_s2_val", "vb_s4_up"]
+_c07_quick, _c07_thorough = [], []
+for t in _own_tests:
+    _c07_quick.append(run("ownership", t, c=1, weight=1))
+    _c07_quick.append(run("ownership", t, c=0, opt={"T": 1, "m": 6}, weight=0.3))
+    _c07_thorough.append(run("ownership", t, c=2, weight=2))
+    _c07_thorough.append(run("ownership", t, c=2, opt={"T": 3, "m": 1, "prefill": 1}, weight=1))
+    _c07_thorough.append(run("ownership", t, c=0, opt={"T": 1, "m": 8}, weight=0.3))
+for t in ["ram_e1_up_hp", "ram_e2_up_hp", "nik_e1_up_hp", "kf_k1_up_hp", "kb_k1s2_up", "nb_c1_up", "vb_s2_up", "ms_up_hp"]:
+    _c07_quick.append(run("ownership", t, c=2, weight=2))
+    _c07_thorough.append(run("ownership", t, c=3, opt={"prefill": 1}, weight=6))
+PLAN["C07"] = {
+    "quick": _c07_quick, "thorough": _c07_thorough, "budget_s": {"quick": 150, "thorough": 1500},
+    "rule": "programs: T threads x m operations over {push/try_push, try_pop}, all assignments (at least one push), then destruction of the queue WITHOUT draining; "
+            "element kinds: std::unique_ptr<E>, raw E* (client keeps ownership), non-trivial movable V (identity travels with moves); all seven queue types with node / "
+            "segment / ring sizes 1-2(-4); sequential runs: all sequences of depth 6..8; oracle: ledger of constructions / destructions per element id - handed-out "
+            "elements alive and intact, popped at most once, every accepted element destroyed exactly once (consumer or queue destructor), rejected values intact with the "
+            "caller, raw pointers never deleted by the queue - plus heap shadow (double free, use after free)",
+    "assumptions": ["by-value try_push(value_type) signatures consume a rejected argument on the caller side; 'left with the caller' is checked as 'destroyed exactly once, not by the queue'"],
+}
+LEVEL_TEXT["C07"] = ("all interleavings with <= c preemptions of all enumerated producer/consumer programs followed by destruction of the non-empty queue, for 28 queue x "
+                     "element-kind x node-size configurations, plus all sequential sequences to depth 6-8; exactly-once destruction decided from a construction/destruction ledger")
+
+# ------------------------------------------------------------------------------------------------- C12
+TITLES["C12"] = "chase_work_stealing_deque hands out every pushed item exactly once"
+PLAN["C12"] = {
+    "quick": [run("deque", "grow2", c=0, opt={"thieves": 0, "m": 6, "steal_between": 1, "maxoffset": 5}),
+              run("deque", "fixed2", c=0, opt={"thieves": 0, "m": 6, "steal_between": 1, "maxoffset": 3}),
+              run("deque", "grow2", c=2, weight=2), run("deque", "fixed2", c=2), run("deque", "grow4", c=1, opt={"m": 4}),
+              run("deque", "grow2", c=1, opt={"thieves": 2, "s": 1}), run("deque", "grow2", c=1, mode="wmm", d=1), run("deque", "fixed2", c=1, mode="wmm", d=1)],
+    "thorough": [run("deque", "grow2", c=0, opt={"thieves": 0, "m": 8, "steal_between": 1, "maxoffset": 5}),
+                 run("deque", "grow4", c=0, opt={"thieves": 0, "m": 8, "steal_between": 1, "maxoffset": 7, "prefill": 2}),
+                 run("deque", "fixed4", c=0, opt={"thieves": 0, "m": 8, "steal_between": 1, "maxoffset": 5}),
+                 run("deque", "grow2", c=3, weight=6), run("deque", "fixed2", c=3, weight=4), run("deque", "grow2", c=2, opt={"thieves": 2, "s": 1}, weight=4),
+                 run("deque", "grow2", c=2, opt={"m": 4, "s": 3, "maxoffset": 5}, weight=4), run("deque", "grow4", c=2, opt={"m": 5, "prefill": 2}, weight=4),
+                 run("deque", "grow2", c=2, mode="wmm", d=1, weight=4), run("deque", "grow2", c=1, mode="wmm", d=2, W=64, weight=2),
+                 run("deque", "fixed2", c=2, mode="wmm", d=1, weight=3), run("deque", "grow2", c=2, variant="tsanv")],
+    "budget_s": {"quick": 120, "thorough": 1500},
+    "rule": "owner program of m operations over {try_push, try_pop} (all assignments), 1-2 thieves with s try_steal each, index offset 0..5 (push+steal pairs before the "
+            "interesting part, enumerated) and 0..2 prefilled items (enumerated), capacity<2|4> with the growing and the fixed container, final drain; sequential runs: "
+            "all owner sequences to depth 6..8 with an optional steal after every step; oracle: Wing-Gong linearizability against a deque (owner LIFO, thief FIFO, steal "
+            "may fail only when empty or overlapping another operation, push fails only on a full fixed container) + returned pointers must be pushed items",
+    "assumptions": [],
+}
+LEVEL_TEXT["C12"] = ("all interleavings with <= c preemptions (and, in wmm mode, <= d stale reads) of all enumerated owner/thief programs around growth of the array at every "
+                     "index offset 0..5, plus all sequential sequences to depth 6-8; every history checked against a sequential deque")
+
+# ------------------------------------------------------------------------------------------------- C13
+TITLES["C13"] = "left_right: readers always see one consistent, fully updated instance"
+PLAN["C13"] = {
+    "quick": [run("lr_seqlock", "left_right", c=3), run("lr_seqlock", "left_right", c=2, opt={"readers": 2, "loads": 1, "updates": 2}),
+              run("lr_seqlock", "left_right", c=2, opt={"writers": 2, "updates": 1, "readers": 1, "loads": 2}),
+              run("lr_seqlock", "left_right", c=2, mode="wmm", d=1), run("lr_seqlock", "left_right", c=2, variant="tsanv")],
+    "thorough": [run("lr_seqlock", "left_right", c=4, weight=3), run("lr_seqlock", "left_right", c=3, opt={"readers": 2, "loads": 1, "updates": 2}, weight=4),
+                 run("lr_seqlock", "left_right", c=2, opt={"writers": 2, "updates": 1, "readers": 2, "loads": 1}, weight=2),
+                 run("lr_seqlock", "left_right", c=2, opt={"readers": 3, "loads": 1, "updates": 2}, weight=4),
+                 run("lr_seqlock", "left_right", c=3, opt={"updates": 3, "loads": 3}, weight=2),
+                 run("lr_seqlock", "left_right", c=2, mode="wmm", d=2, W=64, weight=2), run("lr_seqlock", "left_right", c=3, mode="wmm", d=1, weight=2),
+                 run("lr_seqlock", "left_right", c=3, variant="tsanv")],
+    "budget_s": {"quick": 100, "thorough": 1200},
+    "rule": "1-2 writers x 1-3 updates (functor increments two plain fields), 1-3 readers x 1-3 reads (functor reads both fields); std::mutex and "
+            "std::this_thread::yield are modelled (blocking lock, spin-wait hand-off); oracle: happens-before race detector on the functors' plain accesses (a reader on "
+            "the instance being written is a data race on every schedule that overlaps them), a==b in every read, functor applied exactly twice per update, both "
+            "instances equal to the number of updates at the end, Wing-Gong linearizability of reads against an atomic counter",
+    "assumptions": [],
+}
+LEVEL_TEXT["C13"] = ("all interleavings with <= c preemptions (3 quick, 4 thorough; wmm: additionally <= d stale reads) of writers and readers, including readers arriving between "
+                     "the instance switch and the version toggle; race detector and register-linearizability oracle on every execution")
+
+# ------------------------------------------------------------------------------------------------- C14
+TITLES["C14"] = "seqlock::load returns exactly some stored value, never torn or truncated"
+_rt = ["seqrt_b16_s1", "seqrt_b16_s2", "seqrt_b16_s8", "seqrt_b24_s3", "seqrt_b12_s1", "seqrt_b12_s2", "seqrt_b20_s2", "seqrt_b28_s4", "seqrt_b9_s1", "seqrt_b9_s2"]
+PLAN["C14"] = {
+    "quick": [run("lr_seqlock", t, c=0, weight=0.2) for t in _rt] +
+             [run("lr_seqlock", t, c=3) for t in ["seqlock_b16_s1", "seqlock_b16_s2", "seqlock_b16_s3", "seqlock_b24_s2", "seqlock_b12_s2", "seqlock_b16_s4"]] +
+             [run("lr_seqlock", "seqlock_b16_s2", c=2, mode="wmm", d=2), run("lr_seqlock", "seqlock_b16_s1", c=2, mode="wmm", d=1),
+              run("lr_seqlock", "seqlock_b16_s2", c=2, opt={"writers": 2, "readers": 1, "loads": 2, "stores": 2}, weight=3),
+              run("lr_seqlock", "seqlock_b12_s2", c=3, variant="tsanv")],
+    "thorough": [run("lr_seqlock", t, c=0, weight=0.2) for t in _rt] +
+                [run("lr_seqlock", t, c=4, weight=2) for t in ["seqlock_b16_s1", "seqlock_b16_s2", "seqlock_b16_s3", "seqlock_b24_s2", "seqlock_b12_s2", "seqlock_b16_s4"]] +
+                [run("lr_seqlock", "seqlock_b16_s2", c=2, opt={"writers": 2, "readers": 2, "loads": 1, "stores": 2}, weight=6),
+                 run("lr_seqlock", "seqlock_b16_s3", c=2, opt={"writers": 2, "readers": 1, "loads": 2, "stores": 2}, weight=4),
+                 run("lr_seqlock", "seqlock_b16_s1", c=2, opt={"writers": 2, "readers": 1, "loads": 2, "stores": 1}, weight=3),
+                 run("lr_seqlock", "seqlock_b16_s2", c=3, opt={"stores": 4, "loads": 3}, weight=3),
+                 run("lr_seqlock", "seqlock_b16_s2", c=3, mode="wmm", d=2, W=64, weight=3), run("lr_seqlock", "seqlock_b24_s2", c=2, mode="wmm", d=2, weight=2),
+                 run("lr_seqlock", "seqlock_b16_s1", c=3, mode="wmm", d=2, weight=2), run("lr_seqlock", "seqlock_b16_s2", c=4, variant="tsanv")],
+    "budget_s": {"quick": 100, "thorough": 1200},
+    "rule": "sequential: for types of 9, 12, 16, 20, 24, 28 bytes (alignments 1, 4, 8) and 1..8 slots every byte position is written through store() and update() and "
+            "compared byte-wise after load(); concurrent: 1-2 writers (store / update alternating) x 1-3 readers, every byte of a value is a function of its tag so a torn "
+            "or truncated result is visible; oracle: byte-wise consistency of every loaded value and of every value handed to an update functor, Wing-Gong linearizability "
+            "against an atomic register",
+    "assumptions": [],
+}
+LEVEL_TEXT["C14"] = ("all interleavings with <= c preemptions (3 quick, 4 thorough; wmm: <= d stale reads, exercising the fence pairing) of writers and readers for 1-4 slots, plus "
+                     "exhaustive byte-position round trips for six type sizes/alignments; every loaded value compared byte-wise with the set of stored values")
